@@ -536,6 +536,8 @@ def shards(tier, seed):
     for mi in (0, 1, 2, 4):
         sh.append({"kind": "mixed_shots", "mi": mi, "seed": seed, "tier": tier})
         sh.append({"kind": "dmr_shots", "mi": mi, "seed": seed, "tier": tier})
+    for n in (9, 10, 11, 12):      # post-selected estimates on wide registers (measurement keys with two digits)
+        sh.append({"kind": "wide", "n": n, "seed": seed, "tier": tier})
     return sh
 
 
@@ -544,6 +546,13 @@ def run_shard(sh):
     seed = sh["seed"]
     P, M = preps(seed), meas_preps(seed)
     k = sh["kind"]
+    if k == "wide":
+        from props import c10
+        for nm in (1, 2):
+            for shots in (1, 2):
+                c10.check_wide({"kind": "wide", "n": sh["n"], "n_meas": nm, "n_shots": shots}, acc)
+        acc.sample({"kind": "wide", "n": sh["n"], "n_meas": 1, "n_shots": 2}, cap=1)
+        return acc
     if k == "exact":
         prep = P[sh["pi"]]
         n = width_of(prep)
@@ -658,7 +667,10 @@ def replay_case(case):
     case = dict(case)
     if "op" in case:
         case["op"] = [(w, (complex(c["re"], c["im"]) if isinstance(c, dict) else c)) for w, c in case["op"]]
-    if k == "exact":
+    if k == "wide":
+        from props import c10
+        c10.check_wide(case, acc)
+    elif k == "exact":
         check_exact(case, acc)
     elif k == "shots":
         check_shots(case, acc)
